@@ -29,6 +29,9 @@ def check_and_persist_dask_input(data, persist=True):
 def array_to_delayed_list(data, input_is_dask):
     # If input is a dask array, convert to delayed chunks
     if input_is_dask:
+        # Only the sample axis may be split: every block must hold whole rows
+        if data.ndim > 1:
+            data = data.rechunk({axis: -1 for axis in range(1, data.ndim)})
         data = data.to_delayed().ravel().tolist()
         logger.debug(f"Got {len(data)} chunks.")
     return data
